@@ -72,17 +72,33 @@ def scenario(dim, periodic, n, mask=None, adjacent=None, seed=0, anchor=(0.0, 0.
             'mask': None if mask is None else [bool(b) for b in mask]}
 
 
-def _run(sc, profile):
+def _lines(sc):
     lines = [build_line('build', sc), build_line('build_via_integrator', sc)]
     if sc['mask'] is not None:
         lines.append(build_line('build', sc, mask=None))
-    return engine.native(lines, profile)
+    return lines
 
 
-def violations(sc, profile='debug', only=None):
+def _run(sc, profile):
+    return engine.native(_lines(sc), profile)
+
+
+def run_many(scs, profile):
+    """native results for many scenarios with one process start"""
+    lines, spans = [], []
+    for sc in scs:
+        l = _lines(sc)
+        spans.append((len(lines), len(l)))
+        lines.extend(l)
+    res = engine.native(lines, profile)
+    return [res[a:a + k] for a, k in spans]
+
+
+def violations(sc, profile='debug', only=None, res=None):
     """-> list of (property id, text) for every property statement that the real code violates on this scenario"""
     out = []
-    res = _run(sc, profile)
+    if res is None:
+        res = _run(sc, profile)
     if res[0][0] != 'ok':
         return [('C05', 'construction panics (%s build): %s' % (profile, ' '.join(res[0][1:14])))]
     cells, faces, conn = parse_build(res[0][1:])
@@ -186,6 +202,27 @@ def violations(sc, profile='debug', only=None):
         for k, c in enumerate(cells):
             if not c['volume'] > 0:
                 add('C02', 'cell %d has measure %r' % (k, c['volume']))
+    # ---- C08 / C01: the 1D result is the closed form (cell boundaries at the midpoints of sorted neighbours, walls or periodic images)
+    if dim == 1 and n >= 1 and len({g[0] for g in gens}) == n:
+        order = sorted(range(n), key=lambda k: gens[k][0])
+        a0, w0 = sc['anchor'][0], w[0]
+        for r, k in enumerate(order):
+            if not sel(k):
+                continue
+            x = gens[k][0]
+            if per:
+                lo = (gens[order[r - 1]][0] - (w0 if r == 0 else 0.0) + x) / 2
+                hi = (gens[order[(r + 1) % n]][0] + (w0 if r == n - 1 else 0.0) + x) / 2
+            else:
+                lo = a0 if r == 0 else (gens[order[r - 1]][0] + x) / 2
+                hi = a0 + w0 if r == n - 1 else (gens[order[r + 1]][0] + x) / 2
+            if abs(cells[k]['volume'] - (hi - lo)) > 1e-9 * w0:
+                add('C08', '1D cell %d has length %r, the closed form (midpoints of sorted neighbours) gives %r' % (k, cells[k]['volume'], hi - lo))
+            if abs(cells[k]['centroid'][0] - (hi + lo) / 2) > 1e-9 * w0:
+                add('C08', '1D cell %d has centroid %r, the closed form gives %r' % (k, cells[k]['centroid'][0], (hi + lo) / 2))
+            mine = [faces[f] for f in conn[cells[k]['offset']:cells[k]['offset'] + cells[k]['count']] if f < len(faces)]
+            if len(mine) != 2 or any(abs(fa['area'] - 1.0) > 1e-9 for fa in mine):
+                add('C08', '1D cell %d lists %d faces with areas %r, expected two faces of area 1' % (k, len(mine), [fa['area'] for fa in mine]))
     # ---- C16: safety radius >= 2 x distance to points of the cell (face centroids and the cell centroid are in the cell)
     for k, c in enumerate(cells):
         if not sel(k):
@@ -289,3 +326,52 @@ def wall_scenarios(dim=3, periodic=False, mask=None):
         m = None if mask is None else (list(mask) + [True] * len(gs))[:len(gs)]
         out.append({'kind': 'scenario', 'dim': dim, 'periodic': bool(periodic), 'anchor': list(a), 'width': list(w), 'gens': [list(pick(g)) for g in gs], 'mask': m})
     return out
+
+
+BATTERY_PIDS = ('C03', 'C04', 'C05', 'C06', 'C07', 'C08', 'C12', 'C13', 'C16')
+
+
+def battery(seed=0):
+    out = []
+    for dim in (1, 2, 3):
+        for per in (False, True):
+            for n in (1, 2, 3, 4, 5):
+                masks = [None]
+                if n >= 2:
+                    masks += [[(k * 7 + seed) % 3 != 0 for k in range(n)], [k % 2 == 1 for k in range(n)], [k == n - 1 for k in range(n)]]
+                for m in masks:
+                    for sd in (seed, seed + 1):
+                        out.append(scenario(dim, per, n, m, adjacent=(n - 1, 0) if n >= 2 else None, seed=sd))
+            out.extend(wall_scenarios(dim, per))
+            out.extend(wall_scenarios(dim, per, mask=[False, True, True]))
+    return out
+
+
+def fallback(run):
+    """Used only when the solver-based part of a check ended WITHOUT a verdict (encoding aborted on an unsupported construct, solver
+    unknown, or a counterexample that its dedicated replay did not reproduce): a fixed battery of public-API scenarios is evaluated
+    against the statements of this property.  A violation observed on the real code is reported as such (it is real whatever found it);
+    observing nothing changes nothing - the run stays inconclusive / suspect and is never turned into a pass."""
+    if run.pid not in BATTERY_PIDS:
+        return
+    n = 0
+    scs = battery(run.seed)
+    try:
+        for prof in ('debug', 'release'):
+            allres = run_many(scs, prof)
+            hit = False
+            for sc, res in zip(scs, allres):
+                n += 1
+                v = violations(sc, prof, only=(run.pid,), res=res)
+                if v:
+                    txt = '%s [%s build]' % ('; '.join('%s: %s' % x for x in v[:2]), prof)
+                    path = engine.save_replay(run.pid, dict(sc, expect=txt))
+                    run.violation('no solver verdict (%s); native fallback battery, scenario %d: %s' % ((run.suspect + run.inconclusive)[0][:160], n, txt), path)
+                    hit = True
+                    break
+            if hit:
+                break
+    except engine.Inconclusive as e:
+        run.notes.append('native fallback battery aborted: %s' % str(e)[:200])
+        return
+    run.notes.append('native fallback battery after a run without solver verdict: %d public-API scenarios evaluated' % n)
